@@ -233,7 +233,16 @@ function genTrace(spec, seed, bridge, run) {
   const noneRate = rng.pick([0, 2, 4]);
   const types = new Array(NSLOT).fill(null);
   const ops = [];
-  const slotOf = (ty) => { const c = []; types.forEach((t, i) => { if (t === ty) c.push(i); }); return c.length ? rng.pick(c) : -1; };
+  let avoid = new Set();
+  const slotOf = (ty) => {
+    const c = []; types.forEach((t, i) => { if (t === ty) c.push(i); });
+    if (!c.length) return -1;
+    // prefer objects not yet used by this call: distinct lenders are what edge arrays have to tell apart
+    const fresh = c.filter((i) => !avoid.has(i));
+    const pick = rng.pick(fresh.length ? fresh : c);
+    avoid.add(pick);
+    return pick;
+  };
   const free = () => { const c = []; types.forEach((t, i) => { if (!t) c.push(i); }); return c.length ? rng.pick(c) : -1; };
   const n = 2 + rng.below(maxOps);
   for (let i = 0; i < n; i++) {
@@ -253,6 +262,7 @@ function genTrace(spec, seed, bridge, run) {
       types[dst] = o.name; continue;
     }
     const m = rng.pick(cands);
+    avoid = new Set([dst]);
     const args = m.params.map((p) => {
       if (p.kind === "opaque") return slotOf(p.ty);
       if (p.kind === "optopaque") return rng.below(8) < noneRate ? -1 : slotOf(p.ty);
@@ -262,7 +272,19 @@ function genTrace(spec, seed, bridge, run) {
     });
     const arm = !(rng.below(8) < noneRate);
     const isStruct = m.ret.kind === "struct" || m.ret.kind === "resstruct";
-    ops.push({ op: "call", m: spec.methods.indexOf(m), self: m.static ? -1 : slotOf(m.owner), args, dst, arm, noneMask: isStruct ? rng.below(8) * (rng.below(8) < noneRate ? 1 : 0) : 0 });
+    // the most adversarial schedule for a fresh borrower: the program forgets every input right after the call,
+    // the collector runs, the finalizers of whatever died run, then the borrower is used
+    const dropArgs = rng.chance(1, 3);
+    ops.push({ op: "call", m: spec.methods.indexOf(m), self: m.static ? -1 : slotOf(m.owner), args, dst, arm, noneMask: isStruct ? rng.below(8) * (rng.below(8) < noneRate ? 1 : 0) : 0, dropArgs });
+    if (dropArgs) {
+      const used = []; const walk = (a) => { if (Array.isArray(a)) a.forEach(walk); else if (typeof a === "number" && a >= 0) used.push(a); };
+      walk(args); if (!m.static) used.push(ops[ops.length - 1].self);
+      for (const u of used) if (u !== dst && u >= 0) types[u] = null;
+      ops.push({ op: "gc" });
+      const nf = 1 + rng.below(4);
+      for (let k = 0; k < nf; k++) ops.push({ op: "fin", k: rng.below(8) });
+      ops.push({ op: "use", slot: dst });
+    }
     if (isStruct) {
       // the fields of the returned struct are spread over the free slots (the executor does the same)
       if (arm || m.ret.kind === "struct") { const sdef = spec.outs.find((s) => s.name === m.ret.ty); let k = 0; for (let si = 0; si < NSLOT && k < sdef.fields.length; si++) if (!types[si]) { types[si] = sdef.fields[k].ty; k++; } }
@@ -388,6 +410,14 @@ async function execute(spec, classes, trace) {
           }
         } else if (r.v != null && W.lastReturn) held[op.dst] = { w: r.v, ent: W.lastReturn };
         else line += " -> null";
+        if (op.dropArgs) {
+          const keep = new Set(); // slots that received (part of) the result
+          if (W.lastReturn && W.lastReturn.kind === "struct") { for (let si = 0; si < NSLOT; si++) if (held[si] && W.lastReturn.fields.includes(held[si].ent)) keep.add(si); } else keep.add(op.dst);
+          const used = []; const walk = (a) => { if (Array.isArray(a)) a.forEach(walk); else if (typeof a === "number" && a >= 0) used.push(a); };
+          walk(op.args); if (op.self >= 0) used.push(op.self);
+          for (const u of used) if (!keep.has(u)) held[u] = null;
+          inc("inputs_dropped_right_after_call");
+        }
         break;
       }
       case "drop": if (!held[op.slot]) { did = false; break; } held[op.slot] = null; break;
